@@ -40,6 +40,29 @@ impl Ev {
 struct Sub;
 #[Subscription]
 impl Sub { async fn events(&self) -> impl futures_util::Stream<Item = Ev> { futures_util::stream::iter(vec![Ev { n: 1 }, Ev { n: 2 }, Ev { n: 3 }]) } }
+struct Extra;
+#[Object]
+impl Extra {
+    async fn strict(&self) -> Result<i32> { Err("strict".into()) }
+    async fn soft(&self) -> Option<Result<i32>> { Some(Err("soft".into())) }
+    async fn version(&self) -> i32 { 7 }
+}
+#[derive(MergedObject, Default)]
+struct MergedQuery(Base, ExtraDefault);
+#[derive(Default)] struct Base;
+#[Object] impl Base { async fn ok(&self) -> i32 { 1 } async fn child(&self) -> Option<MergedChild> { Some(MergedChild::default()) } }
+#[derive(Default)] struct ExtraDefault;
+#[Object] impl ExtraDefault {
+    async fn strict(&self) -> Result<i32> { Err("strict".into()) }
+    async fn soft(&self) -> Option<Result<i32>> { Some(Err("soft".into())) }
+    async fn version(&self) -> i32 { 7 }
+}
+#[derive(MergedObject, Default)]
+struct MergedChild(ChildA, ChildB);
+#[derive(Default)] struct ChildA;
+#[Object] impl ChildA { async fn a(&self) -> i32 { 1 } }
+#[derive(Default)] struct ChildB;
+#[Object] impl ChildB { async fn boom(&self) -> Result<i32> { Err("boom".into()) } }
 struct NoopExt;
 #[async_graphql::async_trait::async_trait]
 impl async_graphql::extensions::Extension for NoopExt {}
@@ -73,7 +96,9 @@ pub fn errors(args: &Value) -> Outcome {
         for e in exp.iter_mut() { let mut p = e["errors"].as_array().unwrap().clone(); p.sort_by_key(|x| x.to_string()); e["errors"] = Value::Array(p); }
         return Outcome { holds: got == exp, observed: format!("{}", Value::Array(got)), expected: format!("{}", Value::Array(exp)) };
     }
-    let resp = if args["schema"] == "dynamic" { dyn_schema().execute(q).now_or_never().unwrap() }
+    let _ = Extra;
+    let resp = if args["schema"] == "merged" { Schema::new(MergedQuery::default(), EmptyMutation, EmptySubscription).execute(q).now_or_never().unwrap() }
+               else if args["schema"] == "dynamic" { dyn_schema().execute(q).now_or_never().unwrap() }
                else if args["schema"] == "static_ext" { Schema::build(Query, EmptyMutation, EmptySubscription).extension(NoopExt).finish().execute(q).now_or_never().unwrap() }
                else { Schema::new(Query, EmptyMutation, EmptySubscription).execute(q).now_or_never().unwrap() };
     let data = resp.data.clone().into_json().unwrap();
@@ -119,6 +144,13 @@ pub fn inputs(_seed: u64, open: &[String]) -> impl Iterator<Item = Value> {
         json!({"schema": "static", "query": "{ ok weak { fine failNn } gone { fine } }", "data": {"ok": 1, "weak": null, "gone": null}, "errors": [["weak", "failNn"]]}),
         json!({"schema": "static", "query": "{ ok weak { fine failOpt } }", "data": {"ok": 1, "weak": {"fine": 1, "failOpt": null}}, "errors": [["weak", "failOpt"]]}),
         json!({"schema": "static", "query": "{ ok arc { failNn } boxed { failNn fine } }", "data": {"ok": 1, "arc": null, "boxed": null}, "errors": [["arc", "failNn"], ["boxed", "failNn"]]}),
+        // aliases: the error is located at the alias, the path uses the response key
+        json!({"schema": "static", "query": "{ ok leafOpt { x: failNn fine } }", "data": {"ok": 1, "leafOpt": null}, "errors": [["leafOpt", "x"]]}),
+        json!({"schema": "static", "query": "{ ok z: leafOpt { fine } f: fatal }", "data": null, "errors": [["f"]]}),
+        // derived merged objects: the member that owns the field decides, its error is an error
+        json!({"schema": "merged", "query": "{ ok version soft }", "data": {"ok": 1, "version": 7, "soft": null}, "errors": [["soft"]]}),
+        json!({"schema": "merged", "query": "{ version strict }", "data": null, "errors": [["strict"]]}),
+        json!({"schema": "merged", "query": "{ ok child { a boom } }", "data": {"ok": 1, "child": null}, "errors": [["child", "boom"]]}),
         // subscription events: each response holds its own errors, whether or not the event failed as a whole
         json!({"schema": "subscription", "query": "subscription { events { n opt } }", "events": [
             {"data": {"events": {"n": 1, "opt": 1}}, "errors": []}, {"data": {"events": {"n": 2, "opt": null}}, "errors": [["events", "opt"]]}, {"data": {"events": {"n": 3, "opt": 3}}, "errors": []}]}),
